@@ -8,10 +8,10 @@ use proptest::prelude::*;
 use serde_json::json;
 use softposit::{P16E1, P32E2, P8E0};
 
-const FMT: [(u32, u32, &str); 3] = [(8, 0, "P8E0"), (16, 1, "P16E1"), (32, 2, "P32E2")];
+pub const FMT: [(u32, u32, &str); 3] = [(8, 0, "P8E0"), (16, 1, "P16E1"), (32, 2, "P32E2")];
 
 /// all spellings of the conversion src -> dst; each returns the target bits
-fn spellings(src: usize, dst: usize, a: u64) -> Vec<(&'static str, Result<u64, String>)> {
+pub fn spellings(src: usize, dst: usize, a: u64) -> Vec<(&'static str, Result<u64, String>)> {
     let p8 = P8E0::from_bits(a as u8);
     let p16 = P16E1::from_bits(a as u16);
     let p32 = P32E2::from_bits(a as u32);
@@ -77,7 +77,7 @@ pub fn conv(src: usize, dst: usize, a: u64, fast: bool, l: &mut Local) -> Result
 }
 
 /// P32 sources next to the thresholds of the narrower target
-fn p32_near_thresholds(tn: u32, tes: u32) -> BoxedStrategy<u64> {
+pub fn p32_near_thresholds(tn: u32, tes: u32) -> BoxedStrategy<u64> {
     (gen::bits(tn + 1), -2i64..=2).prop_map(move |(v, d)| {
         let v = (v | 1) & gen::mask(tn + 1);
         match fr::decode(tn + 1, tes, v) {
